@@ -1,4 +1,5 @@
 """C01 - every request completes exactly once (Lifecycle facet)."""
+import mutators
 import simlib
 import vlib
 
@@ -17,7 +18,7 @@ def run(ctx):
     else:
         gens = [{"module": "Gen_C01.tla", "cfg": "Gen_C01_thorough.cfg", "name": "bfs"},
                 {"module": "Gen_C01.tla", "cfg": "Gen_C01_sim.cfg", "name": "sim", "simulate": 1500, "depth": 9}]
-    simlib.engine_check(ctx, gens, FACETS)
+    simlib.engine_check(ctx, gens, FACETS, selftests=mutators.LIFECYCLE)
     ctx.assumptions += ["nested calls from callbacks are restricted to what C01 names (new requests, ares_cancel); no call is made "
                         "from a destruction callback (documented as illegal)",
                         "memory clauses are observed by ASan/UBSan/LSan on the generated executions only"]
